@@ -223,10 +223,12 @@ PROPS = {
    "map[string]interface{} / []interface{} yields exactly the specification's generic value and restores the context)."
    " PropsTyped.C13 unfold_scalar_into_typed / unfold_array_into_prim_slice / unfold_object_into_prim_map: the typed-assignment clause for scalar targets of every primitive type, "
    "[]T and map[string]T with T primitive (any old value in the target: slices are overwritten from the start, maps are merged into): whenever the specification makes a claim the "
-   "mirror accepts and stores the specified value. Nested / pointer / struct targets and user unfolders: mirror + correspondence + oracle (`assign`), op unf-userval.",
+   "mirror accepts and stores the specified value. PropsStruct.C13 object_into_struct_compiled / unfold_object_into_struct: the same for STRUCT targets whose flattened fields are of primitive, interface{} or struct "
+   "type (inline / squash to any depth, nested structs, unknown keys of any shape swallowed without a trace, duplicate keys in stream order, numeric conversions; fields not mentioned untouched; the Unfolder exactly as before "
+   "SetTarget afterwards). Struct fields of slice / map / pointer type, containers of structs and user unfolders: mirror + correspondence + oracle (`assign`), op unf-userval.",
    tb=["model: SF/Gotype/Unfold.lean (mirror of gotype/unfold*.go), SF/Gotype/UTypes.lean, Conv.lean, Menagerie.lean; spec: SF/Gotype/UnfoldSpec.lean"],
    assumptions=GOTYPE_ASSUME,
-   partial="typed-assignment theorem for struct / pointer / nested typed-container targets not yet proved (safety there: C14 theorem; values: oracle `assign`)"),
+   partial="typed-assignment theorem for struct fields of slice / map / pointer type, containers of structs and nested typed containers not yet proved (safety there: C14 theorems; values: oracle `assign`)"),
  "C14": P("DESIGN.md 7 C14",
    "Lean 4 proof (pre-allocation bound for every announced length; Reset+SetTarget = fresh from any context) + regenerated SSA facts about allocation sites + differential correspondence over mismatches/abandon positions",
    "prealloc_bounded / prealloc_exact / typed_prealloc_le: an announced length allocates min(l,1024) elements for every l; "
